@@ -384,6 +384,7 @@ impl Prop for C02 {
             histories: true,
             max_obst: 2,
             budget_scale: 0.6,
+            p_odd_start: 0.2,
             ..Default::default()
         };
         let mut c = gen_plan_case(ch, &prof);
@@ -634,6 +635,7 @@ impl Prop for C04 {
             seam_bias: 0.4,
             max_obst: 2,
             rng_goal: 0.4,
+            p_so3_signflip: 0.1,
             ..Default::default()
         };
         gen_plan_case(ch, &prof)
